@@ -27,5 +27,13 @@ def parse (s : Bytes) : Origin × Bool :=
   | some o => (o, true)
   | none => (default, false)
 
+/-- What a step of the pipeline returns, in the translator's shape: success with the new buffer, or failure with the
+buffer *as it was* (the model's steps write nothing before failing; that the Go code does not either is part of what
+the equivalence theorems say). -/
+def result (buf : Serve.Buf) (r : Option Serve.Buf) : Bool × Serve.Buf :=
+  match r with
+  | some b => (true, b)
+  | none => (false, buf)
+
 end GoRt
 end Cors
